@@ -18,7 +18,7 @@ func init() {
 			"(4) the accept loop hands a connection to the manager only under ConnCount() < maxConn and otherwise closes it; every accepted connection goes to exactly one of the two; (5) loopSend dequeues with PopAnyway and writes each item to the connection before the next dequeue; Session.Close only closes the send queue (so queued bytes are flushed before the connection closes). " +
 			"NOT decided: termination of both goroutines and byte delivery under every order of faults (needs the peer and the OS); the accept race between ConnCount() and Inc of concurrent accepts (single accept loop assumed).",
 		Assumptions: []string{"one accept loop per manager", "sync.Once, q.Q (C12) contracts"},
-		Floors:      map[string]int{"C16.exit-always": 2, "C16.exit-effects": 1, "C16.count-writers": 4, "C16.accept-guard": 1, "C16.flush": 3},
+		Floors:      map[string]int{"C16.exit-always": 2, "C16.exit-effects": 1, "C16.count-writers": 4, "C16.accept-guard": 2, "C16.flush": 3},
 		Run:         runC16,
 	})
 }
@@ -590,6 +590,35 @@ func (c *Ctx) checkAcceptGuard(cfg TraceConfig) {
 	maxConn := c.mustField(rel, "_SrvStartOpt", "maxConn")
 	if fn == nil || maxConn == nil {
 		return
+	}
+	// the maximum the loop compares with is the one the caller configured: LoopStart writes the field only before it
+	// applies the caller's options (defaults first), never afterwards
+	if ls := c.mustFn(rel, "(*Server).LoopStart"); ls != nil {
+		lts, _ := c.Trace(ls, TraceConfig{Inline: func(callee *ssa.Function, depth int) bool {
+			return depth < 3 && callee.Pkg == ls.Pkg && callee.Signature.Recv() == nil
+		}})
+		okCfg, seenOpt := true, false
+		for _, t := range lts {
+			optAt := -1
+			for i, e := range t.Events {
+				if e.Kind == EvCall && e.Callee == nil && e.Method == nil && e.Val != nil && optAt < 0 {
+					// a call through a function value taken from the options slice
+					if strings.Contains(e.Val.Key(), "$"+ls.Params[len(ls.Params)-1].Name()) {
+						optAt = i
+						seenOpt = true
+					}
+				}
+				if e.Kind == EvStore && e.Addr.isFieldAddrOf(maxConn) && optAt >= 0 && okCfg {
+					okCfg = false
+					c.violated("C16.accept-guard", "(*stcp.Server).LoopStart maxConn", e.Pos, "the connection limit is written after the caller's options were applied: a configured maximum (e.g. 0) is replaced and the count exceeds it", c.witness(t, i)...)
+				}
+			}
+		}
+		if okCfg && seenOpt {
+			c.holds("C16.accept-guard", "(*stcp.Server).LoopStart maxConn", ls.Pos(), "maxConn written only before the options are applied")
+		} else if okCfg {
+			c.undecided("C16.accept-guard", "(*stcp.Server).LoopStart maxConn", ls.Pos(), "no application of the caller's options found in LoopStart")
+		}
 	}
 	cons := "(*stcp.Server).loopAccept"
 	traces, complete := c.Trace(fn, cfg)
